@@ -317,3 +317,10 @@ func VerifRingStart(dev *AbacoRing) error { return dev.start() }
 
 // VerifRingStop closes the ring.
 func VerifRingStop(dev *AbacoRing) error { return dev.stop() }
+
+// VerifUDPStart / VerifUDPStop run the real AbacoUDPReceiver.start (bind the socket, launch the reader
+// goroutine) and AbacoUDPReceiver.stop, so that ReadAllPackets can be driven with datagrams a test sends.
+func VerifUDPStart(dev *AbacoUDPReceiver) error { return dev.start() }
+
+// VerifUDPStop closes the socket and ends the reader goroutine.
+func VerifUDPStop(dev *AbacoUDPReceiver) error { return dev.stop() }
